@@ -281,5 +281,5 @@ def _sort_tree(tree: Tree) -> Tree:
     """Sort the indices of neuron tree inplace."""
     (new_ids, new_pids), id_map = sort_nodes_impl((tree.id(), tree.pid()))
     tree.ndata = {k: tree.ndata[k][id_map] for k in tree.ndata}
-    tree.ndata.update(id=new_ids, pid=new_pids)
+    tree.ndata.update({tree.names.id: new_ids, tree.names.pid: new_pids})
     return tree
